@@ -16,6 +16,7 @@ from .. import cards, yrun
 from ..engine import digest
 from ..ref import ref_basis, ref_conv
 
+HISTORY_SWEEP = True
 ID = "C01"
 SF_KINDS = ["F2", "FL", "F3", "g1", "gL", "g4"]
 PROCS = ["EM", "NC", "CC"]
